@@ -88,3 +88,40 @@ prop(
     modelled="see C01; panics inside the entropy decoders are covered by C12/C13 models, raw memory by C04",
     assumptions=["wall-clock time is represented by fuel (loop iterations) in the theorems and by a watchdog deadline in the harness", "allocation failure aborts the process and is outside the model"],
 )
+
+
+def c12_spec_lines_are_oracle(chk):
+    """Engine `fse`, request lines `fse spec …`: the model side of these lines is NOT the mirror of the code
+    but the RFC transcription (Spec.readDescription + Spec.buildTable) run on a table description that
+    libzstd or the real encoder wrote, and the implementation side is the table the real decoder built
+    from the same bytes.  A disagreement there is what the property forbids ("the decoding table built
+    from its serialized description is the one the specification defines"), so it is reported as an
+    implementation-vs-oracle failure with the description as the replay, not as a broken mirror."""
+    for rep in chk.engine_reports:
+        if rep.get("engine") != "fse":
+            continue
+        for d in rep.get("disagreements", []) or []:
+            case = d.get("case", "")
+            if case.startswith("fse spec "):
+                chk.violations.append({
+                    "kind": "implementation-vs-oracle (Spec table)",
+                    "engine": "fse",
+                    "what": "decoder table built by the real code differs from the table the Spec builds from the same description: impl `%s` / Spec `%s`" % (d.get("impl", "")[:200], d.get("model", "")[:200]),
+                    "replay": case.replace("fse spec ", "fse dec ", 1) + "\n" + case,
+                    "signature": "spec_table_mismatch",
+                })
+                break
+
+
+prop(
+    "C12",
+    level_text="Machine-checked theorems (Lean 4 kernel) about a hand-written mirror of the FSE and bit-I/O code: bit reader/writer refine the RFC bit order for all sources/requests (n <= 56 reversed, <= 64 forward, <= 63 writer); the closed form of calc_baseline_and_numbits equals the RFC procedure, the spreading walk is a permutation and the per-symbol state ranges partition the table for every accuracy log the format allows (finite cores evaluated by the kernel, AL <= 9); decoder table = Spec table and encoder table = decoder table for every valid distribution; predefined tables = RFC; the normaliser yields a valid distribution for every histogram with production parameters except the single-symbol-0 histogram (finding F4, proved to fault); stream round trips (single and two-state) consume exactly all bits. The mirror is tied to the code by the correspondence engines bits and fse (production parameters).",
+    engines=[{"name": "bits"}, {"name": "fse"}],
+    post_engines=[c12_spec_lines_are_oracle],
+    modelled="BitReader/BitReaderReversed/BitWriter, FSE decoder table reader/builder, FSE encoder normaliser/table builder/description writer/stream encoders and the two decode loops are hand-written mirrors of the Rust; spreading-step constants, accuracy-log offset, max logs, production arguments of the table builder (max log 9/9/8/6, zero-bit avoidance flag) and the six predefined distribution arrays are extracted from the source text on every run",
+    assumptions=[
+        "RFC 8878 FSE transcription in Zstd/Spec/Fse.lean and the default distributions in Zstd/Spec/Tables.lean are faithful (validated against libzstd by engine spec)",
+        "symbol counts and probabilities fit i32 (a block has at most 2^17 sequences); the model computes in Nat/Int",
+        "the forward reader is never asked for 0 bits exactly at the end of its source (the Rust code would index out of bounds; no caller does)",
+    ],
+)
